@@ -295,6 +295,12 @@ def gen_message(rng, shape=None, for_mbox=False, max_att=3, crlf=False):
             mime = "application/octet-stream"
         elif not image and r < 0.15:
             mime = rng.choice(["text/plain", "application/pdf", "text/csv"])
+        # a third of the later attachments declare the SAME MIME type as an earlier attachment with another extension
+        # (notes.txt and page.html both sent as text/plain): routing must follow each attachment, not the type
+        if not image and attachments and rng.random() < 0.34:
+            pn, pm, _pd = rng.choice(attachments)
+            if pn.rsplit(".", 1)[-1].lower() != name.rsplit(".", 1)[-1].lower() and not pm.startswith("image/"):
+                mime = pm
         attachments.append((name, mime, data))
         return _attachment_part(rng, name, mime, data, disposition=disposition, cid=cid, crlf=crlf)
 
